@@ -1029,6 +1029,7 @@ func ruleWaitLoopsProgress(r *Run, rule string) {
 					continue
 				}
 				n := 0
+				nGuard := 0
 				ast.Inspect(fd.Body, func(m ast.Node) bool {
 					fs, ok := m.(*ast.ForStmt)
 					if !ok {
@@ -1078,6 +1079,42 @@ func ruleWaitLoopsProgress(r *Run, rule string) {
 						t := tests[k]
 						r.check(progressIn(w, info, fs.Body, t), rule, fmt.Sprintf("%s.%s:loop#%d:steps(%s)", v.rel, declName(fd), n, k), fs.Pos(), "the loop keeps running while the %s is busy and steps it in its body", t.desc)
 					}
+					// a step guarded by an idleness test of the stepped unit is taken on the BUSY side
+					ast.Inspect(fs.Body, func(k ast.Node) bool {
+						is, ok := k.(*ast.IfStmt)
+						if !ok {
+							return true
+						}
+						guardTests := map[string]idleTest{}
+						idleTestsIn(w, v, info, is.Cond, 0, guardTests)
+						if len(guardTests) == 0 {
+							return true
+						}
+						for _, gk := range sortedKeys(guardTests) {
+							gt := guardTests[gk]
+							if gt.kind != "unit" {
+								continue
+							}
+							stepsHere := false
+							for _, st := range is.Body.List {
+								ast.Inspect(st, func(q ast.Node) bool {
+									if c, ok := q.(*ast.CallExpr); ok {
+										if sel, ok := c.Fun.(*ast.SelectorExpr); ok && strings.EqualFold(sel.Sel.Name, "cycle") {
+											if s2 := info.Selections[sel]; s2 != nil && namedOf(s2.Recv()) == gt.typ {
+												stepsHere = true
+											}
+										}
+									}
+									return true
+								})
+							}
+							if stepsHere {
+								nGuard++
+								r.check(idlePolarity(w, v, info, is.Cond) == "busy", rule, fmt.Sprintf("%s.%s:loop#%d:step-guard(%s)#%d", v.rel, declName(fd), n, gk, nGuard), is.Pos(), "a step of the %s guarded by its idleness test is taken when the unit is BUSY", gt.desc)
+							}
+						}
+						return true
+					})
 					return true
 				})
 			}
@@ -1791,36 +1828,7 @@ func ruleExitFlagCleared(r *Run, rule string) {
 						}
 						return false
 					}
-					// polarity of a condition made of idleness tests
-					var polarity func(e ast.Expr) string // "busy" (all disjuncts negated tests), "idle" (all conjuncts positive tests), ""
-					polarity = func(e ast.Expr) string {
-						e = ast.Unparen(e)
-						switch x := e.(type) {
-						case *ast.BinaryExpr:
-							l, rr := polarity(x.X), polarity(x.Y)
-							// a disjunction with a "component busy" disjunct holds whenever the component is busy;
-							// a conjunction with a "component idle" conjunct fails whenever it is busy
-							if x.Op == token.LOR && (l == "busy" || rr == "busy") && l != "idle" && rr != "idle" {
-								return "busy"
-							}
-							if x.Op == token.LAND && (l == "idle" || rr == "idle") && l != "busy" && rr != "busy" {
-								return "idle"
-							}
-							return ""
-						case *ast.UnaryExpr:
-							if x.Op == token.NOT && polarity(x.X) == "idle" {
-								return "busy"
-							}
-							return ""
-						case *ast.CallExpr:
-							t := map[string]idleTest{}
-							idleTestsIn(w, v, info, x, 0, t)
-							if len(t) > 0 {
-								return "idle"
-							}
-						}
-						return ""
-					}
+					polarity := func(e ast.Expr) string { return idlePolarity(w, v, info, e) }
 					n := 0
 					var walk func(list []ast.Stmt)
 					walk = func(list []ast.Stmt) {
@@ -3950,4 +3958,34 @@ func termIsPure(w *World, fd *ast.FuncDecl, pkg *packages.Package) bool {
 		return nil
 	})
 	return pure
+}
+
+// idlePolarity classifies a condition made of idleness tests: "busy" — it holds whenever the
+// component is busy (a disjunction with a negated idleness test); "idle" — it fails whenever
+// the component is busy (a conjunction with a positive idleness test); "" otherwise.
+func idlePolarity(w *World, v *variant, info *types.Info, e ast.Expr) string {
+	e = ast.Unparen(e)
+	switch x := e.(type) {
+	case *ast.BinaryExpr:
+		l, rr := idlePolarity(w, v, info, x.X), idlePolarity(w, v, info, x.Y)
+		if x.Op == token.LOR && (l == "busy" || rr == "busy") && l != "idle" && rr != "idle" {
+			return "busy"
+		}
+		if x.Op == token.LAND && (l == "idle" || rr == "idle") && l != "busy" && rr != "busy" {
+			return "idle"
+		}
+		return ""
+	case *ast.UnaryExpr:
+		if x.Op == token.NOT && idlePolarity(w, v, info, x.X) == "idle" {
+			return "busy"
+		}
+		return ""
+	case *ast.CallExpr:
+		t := map[string]idleTest{}
+		idleTestsIn(w, v, info, x, 0, t)
+		if len(t) > 0 {
+			return "idle"
+		}
+	}
+	return ""
 }
